@@ -6,7 +6,8 @@ from mc import core
 from models.cm_normalize import normalize_html
 
 ID = 'C02'
-TECHNIQUE = 'complete enumeration of the finite normative corpus (652 examples) against the spec-normalised expected HTML'
+TECHNIQUE = ('complete enumeration of the finite normative corpus (652 examples) against the spec-normalised expected HTML: each '
+             'example from pristine state, and the whole corpus in document order and in reverse order in one process')
 ASSUMPTIONS = ['corpus/commonmark-0.30.json is the 0.30 spec corpus (sha256 asserted)',
                'normalisation = re-statement of the spec test driver normalize.py']
 CORPUS = os.path.join(core.VERIF, 'corpus', 'commonmark-0.30.json')
@@ -27,16 +28,19 @@ def corpus():
 
 
 def jobs(tier):
-    return list(range(NSHARD))
+    # 16 shards with a pristine reset before every example, plus the whole corpus in document order (and in reverse
+    # order) in one process *without* resets in between - the way the upstream spec driver runs it
+    return list(range(NSHARD)) + ['in-order', 'reverse-order']
 
 
 def describe(tier):
     return dict(examples=652, sections=len({e['section'] for e in corpus()}), corpus_sha256=SHA)
 
 
-def evaluate(ex):
+def evaluate(ex, reset=True):
     from mistletoe import Document, HtmlRenderer
-    core.fresh()
+    if reset:
+        core.fresh()
     try:
         with core.time_limit(10):
             with HtmlRenderer(html_escape_double_quotes=True) as r:
@@ -50,6 +54,18 @@ def evaluate(ex):
 
 def run_job(shard):
     r = core.Result()
+    if shard in ('in-order', 'reverse-order'):
+        core.fresh()
+        seq = corpus() if shard == 'in-order' else list(reversed(corpus()))
+        for ex in seq:
+            r.transitions += 1
+            r.validated += 1
+            f = evaluate(ex, reset=False)
+            if f:
+                r.fail(dict(example=ex['example'], markdown=ex['markdown'], mode=shard), 'example-%d:%s:%s' % (ex['example'], shard, f['sig']),
+                       f.get('detail', ''), expected=f.get('expected'), observed=f.get('observed'))
+        r.outcome(shard)
+        return r
     for ex in corpus():
         if ex['example'] % NSHARD != shard:
             continue
@@ -71,6 +87,17 @@ def finalize(agg, tier):
 
 
 def replay(case):
+    mode = case.get('mode')
+    if mode in ('in-order', 'reverse-order'):
+        core.fresh()
+        seq = corpus() if mode == 'in-order' else list(reversed(corpus()))
+        for ex in seq:
+            f = evaluate(ex, reset=False)
+            if ex['example'] == case['example']:
+                if f:
+                    f['sig'] = 'example-%d:%s:%s' % (ex['example'], mode, f['sig'])
+                return f
+        return None
     ex = [e for e in corpus() if e['example'] == case['example']][0]
     f = evaluate(ex)
     if f:
